@@ -288,7 +288,17 @@ int main(int argc, char** argv) {
         //every offset modulo the frame length (quick: a seeded stride)
         const int stride = thorough ? 1 : std::max(1, F / 24);
         const int ph = int(vh::rng_for("detph", pi).below(stride));
+        //the seeded stride plus the frame-boundary offsets (first / last samples of a frame, around the preamble length)
+        std::vector<int> offs;
         for (int off = ph; off < F; off += stride) {
+            offs.push_back(off);
+        }
+        for (int b : {0, 1, 2, F - 3, F - 2, F - 1, F / 2, (F - int(pre[pi].h.size()) + 1 + F) % F, (F - int(pre[pi].h.size()) + F) % F}) {
+            if (b >= 0 && b < F && std::find(offs.begin(), offs.end(), b) == offs.end()) {
+                offs.push_back(b);
+            }
+        }
+        for (int off : offs) {
             if (!vh::mine(idx++)) {
                 continue;
             }
